@@ -58,6 +58,7 @@ def fault_catalogue():
     out.append(("cert-not-pem", {"status": 200, "body": "oops, not a certificate", "ctype": "text/plain"}, 1))
     out.append(("cert-truncated", {"status": 200, "body": "-----BEGIN CERTIFICATE-----\nMIIB", "ctype": "application/pem-certificate-chain"}, 1))
     out.append(("cert-other-key", {"other_key_cert": True}, 1))
+    out.append(("cert-chain-reversed", {"chain_reversed": True}, 1))
     return out
 
 
@@ -136,7 +137,10 @@ def run_fault(sc, root, helper, n_postop=1, extra_opts=None, hook_exits=None, ti
     ans = dict(sc["answer"])
     opts = dict(extra_opts or {})
     rules = []
-    if ans.pop("other_key_cert", False):
+    if ans.pop("chain_reversed", False):
+        opts["chain_order"] = "reversed"
+        opts["chain_len"] = 3
+    elif ans.pop("other_key_cert", False):
         other = helper.call({"op": "selfsigned", "dns": [i["dns"] for i in IDENTS], "ips": [], "not_after_offset": 90 * 86400})
         opts["cert_body"] = other["cert_pem"]
     else:
@@ -148,6 +152,9 @@ def run_fault(sc, root, helper, n_postop=1, extra_opts=None, hook_exits=None, ti
             rule["times"] = sc["times"]
         rules.append(rule)
     cert = {"name": "crt", "identifiers": IDENTS, "kp_reuse": bool(sc.get("kp_reuse")), "key_type": "ecdsa_p256"}
+    if sc.get("random_early_renew"):
+        # non-default jitter: with an installed certificate that is already due, the time left is zero
+        cert["random_early_renew"] = sc["random_early_renew"]
     obs = flow.run_scenario(d, [cert], ca_opts=opts, rules=rules, n_postop=n_postop, timeout=timeout,
                             helper=helper, hook_exits=hook_exits)
     posts = [h for h in obs["hooks"] if h["name"] == "rec-post-operation"]
@@ -164,7 +171,7 @@ def run_fault(sc, root, helper, n_postop=1, extra_opts=None, hook_exits=None, ti
 
 def fault_hit(obs):
     """Did the injected fault actually fire (the flow reached that position)?"""
-    return any(e.get("rule") for e in obs["ca"] if e["kind"] == "req") or obs["sc"]["fault"] == "cert-other-key"
+    return any(e.get("rule") for e in obs["ca"] if e["kind"] == "req") or obs["sc"]["fault"] in ("cert-other-key", "cert-chain-reversed")
 
 
 def attempts_of(obs):
